@@ -2,6 +2,7 @@ import IstioModel.Common.Wire
 import IstioModel.C04.Driver
 import IstioModel.C03.Server
 import IstioModel.C03.Clients
+import IstioModel.C03.Wds
 
 /-! Line-protocol driver for C03, stream `book` (scripted generator outputs). See harness/c03. -/
 namespace IstioModel.C03
@@ -12,6 +13,9 @@ structure DState where
   s    : Srv := {}
   outs : List (Ty × GenOut) := []
   sys  : Sys := {}
+  widx : Index := []           -- stream wds: the stub ambient index
+  wsrv : Srv := {}             -- stream wds: the ztunnel connection
+  wheld : Held := []           -- stream wds: what the delta client holds
 
 def lookupOut (outs : List (Ty × GenOut)) (t : Ty) : GenOut :=
   match outs.find? (fun p => p.1 == t) with
@@ -90,6 +94,34 @@ def stepD (ds : DState) (toks : List String) : DState × String :=
     match Ty.ofTok ty with
     | none => (ds, "bad-op")
     | some t => let y := normSys (IstioModel.C03.step ds.sys (.sub t (decList nm))); ({ ds with sys := y }, showSys y)
+  | ["widx", ws] =>
+    -- name:alias:onNode:ver,...  (sorted by name by the harness)
+    let idx : Index := if ws == "-" then [] else (ws.splitOn ",").filterMap fun e =>
+      match e.splitOn ":" with
+      | [n, a, l, v] => some { name := dec n, alias := dec a, onNode := tokBool l, ver := v.toNat?.getD 0 }
+      | _ => none
+    ({ ds with widx := idx }, "ok")
+  | ["wreq", sub, unsub, init, nk] =>
+    -- `held`: a conformant (re)connecting client reports everything it holds
+    let retained := if init == "held" then sortHeld ds.wheld else []
+    let r : DReq := { ty := .addr, sub := decList sub, unsub := decList unsub, init := names retained,
+                      nonce := resolveNonce ds.wsrv.st .addr nk, err := none }
+    match wdsProcess ds.widx ds.wsrv r retained with
+    | none => (ds, "crash")
+    | some (v, w) =>
+      let v := { v with st := normalize v.st }
+      let held := match w with
+        | some x => applyDelta ds.wheld { resources := x.resources, removed := x.removed }
+        | none => ds.wheld
+      ({ ds with wsrv := v, wheld := held }, s!"{showWires w.toList} | {showStateN v.st}")
+  | ["wreconnect"] => ({ ds with wsrv := { ctr := ds.wsrv.ctr } }, "ok")
+  | ["wpush", upd] =>
+    let (v, w) := wdsPushOne ds.widx ds.wsrv { isReq := false, updated := decList upd }
+    let v := { v with st := normalize v.st }
+    let held := match w with
+      | some x => applyDelta ds.wheld { resources := x.resources, removed := x.removed }
+      | none => ds.wheld
+    ({ ds with wsrv := v, wheld := held }, s!"{showWires w.toList} | {showStateN v.st}")
   | ["pushall"] => let y := normSys (IstioModel.C03.step ds.sys .pushall); ({ ds with sys := y }, showSys y)
   | ["reconnect"] => let y := normSys (IstioModel.C03.step ds.sys .reconnect); ({ ds with sys := y }, showSys y)
   | ["out", ty, kind, res, del, used, inc] =>
